@@ -1,6 +1,7 @@
 import Percival.Model.AesStep
 import Percival.Proofs.Aes
 import Percival.Proofs.AesCtr
+import Percival.Proofs.AesNi
 /-! Helper lemmas for the `exec_*` theorems of C02: the function `pmodel aes` runs (`Model.AesStep.stepOp`)
 keeps "the Spec-side bookkeeping describes the model's stream object" and therefore never reports `model!=spec`. -/
 namespace Percival.Proofs.AesStep
@@ -308,5 +309,112 @@ theorem runStreams_spec : ∀ (ds : List (List UInt8)) (st : St) (l : Live), st.
     · rw [List.flatten_cons, i3, hk, hn, hp, List.flatten_cons,
         streamAt_append _ _ (enc_length l.skey)]
       rfl
+
+/-! ## hw mode: the instruction-level key next to the FIPS-197 key -/
+
+/-- the current key and its instruction-level expansion come from the same key bytes -/
+def KeyInv (st : St) : Prop :=
+  ∀ rks, st.key = some rks → ∃ k, (k.length = 16 ∨ k.length = 32) ∧ rks.1 = Aes.keyExpansion k ∧
+    st.nikey = AesNi.keyExpand k
+
+theorem stepOp_key_unchanged (st : St) (op : Op) (h : ∀ k, op ≠ .expand k) :
+    (stepOp st op).1.key = st.key ∧ (stepOp st op).1.nikey = st.nikey := by
+  cases op with
+  | expand k => exact absurd rfl (h k)
+  | bigstream nonce n t again =>
+    simp only [stepOp, bigStream]
+    repeat' split
+    all_goals first | exact ⟨rfl, rfl⟩ | trivial | simp
+  | _ =>
+    simp only [stepOp]
+    repeat' split
+    all_goals first | exact ⟨rfl, rfl⟩ | trivial | simp
+
+theorem stepOp_keyInv (st : St) (op : Op) (h : KeyInv st) : KeyInv (stepOp st op).1 := by
+  by_cases hop : ∀ k, op ≠ .expand k
+  · obtain ⟨h1, h2⟩ := stepOp_key_unchanged st op hop
+    intro rks hr
+    rw [h1] at hr
+    rw [h2]; exact h rks hr
+  · have : ∃ k, op = .expand k := by
+      cases op <;> first | exact ⟨_, rfl⟩ | exact absurd (fun k => by simp) hop
+    obtain ⟨k, rfl⟩ := this
+    simp only [stepOp]
+    cases hx : expandKey k with
+    | none => exact h
+    | some rks =>
+      by_cases hk : k.length = 16 ∨ k.length = 32
+      · obtain ⟨hwf, he⟩ := expandKey_eq k hk
+        rw [he] at hx
+        intro rks' hr
+        simp only [Option.some.injEq] at hr hx
+        exact ⟨k, hk, by rw [← hr, ← hx], rfl⟩
+      · rw [expandKey_none k hk] at hx; cases hx
+
+theorem niKey_encrypt (k blk : List UInt8) (hk : k.length = 16 ∨ k.length = 32) (hb : blk.length = 16) :
+    (AesNi.keyExpand k).bind (AesNi.encryptBlock blk) = some (Aes.cipher (Aes.keyExpansion k) blk) := by
+  rw [Proofs.AesNi.keyExpand_eq_fips k hk]
+  have hs := Proofs.Aes.keyExpansion_spec k hk
+  show AesNi.encryptBlock blk ⟨Aes.keyExpansion k, k.length / 4 + 6⟩ = _
+  exact Proofs.AesNi.encryptBlock_eq_cipher _ _ blk (by omega) (by rw [hs.1]) hs.2 hb
+
+/-- a `block` answer in hw mode: the ciphertext of the instruction-level model (L2) is the Spec's (L1);
+    an `expand` answer in hw mode: the round keys of the instruction-level model are FIPS-197's -/
+theorem stepOp_hw_l2 (st : St) (h : KeyInv st) (op : Op) :
+    (∀ ct ni, (stepOp st op).2 = .block ct (some ni) → ni = some ct) ∧
+    (∀ k rk, op = .expand k → (stepOp st op).2 = .expanded (some rk) → rk = some (Aes.keyExpansion k).flatten) := by
+  constructor
+  · intro ct ni ho
+    cases op <;> simp only [stepOp, bigStream] at ho
+    case block blk =>
+      cases hkey : st.key with
+      | none => rw [hkey] at ho; cases ho
+      | some rks =>
+        rw [hkey] at ho
+        simp only [] at ho
+        obtain ⟨k, hk, hr, hn⟩ := h rks hkey
+        by_cases hb : blk.length = 16
+        · rw [if_pos hb] at ho
+          simp only [Out.block.injEq] at ho
+          obtain ⟨h1, h2⟩ := ho
+          by_cases hhw : st.hw = true
+          · rw [if_pos hhw, hn, niKey_encrypt k blk hk hb, ← hr, h1] at h2
+            exact (Option.some.inj h2).symm
+          · rw [if_neg hhw] at h2; cases h2
+        · rw [if_neg hb] at ho; cases ho
+    all_goals (repeat' split at ho) <;> cases ho
+  · intro k rk hop ho
+    subst hop
+    simp only [stepOp] at ho
+    cases hx : expandKey k with
+    | none => rw [hx] at ho; cases ho
+    | some rks =>
+      rw [hx] at ho
+      simp only [Out.expanded.injEq] at ho
+      by_cases hk : k.length = 16 ∨ k.length = 32
+      · rw [Proofs.AesNi.keyExpand_eq_fips k hk] at ho
+        by_cases hhw : st.hw = true
+        · rw [if_pos hhw] at ho
+          simp only [Option.map_some, Option.some.injEq] at ho
+          exact ho.symm
+        · rw [if_neg hhw] at ho; cases ho
+      · rw [expandKey_none k hk] at hx; cases hx
+
+theorem runOps_hw_l2 : ∀ (ops : List Op) (st : St), KeyInv st →
+    ∀ o ∈ (runOps st ops).2, (∀ ct ni, o = .block ct (some ni) → ni = some ct) ∧
+      (∀ rk, o = .expanded (some rk) → ∃ k, rk = some (Aes.keyExpansion k).flatten)
+  | [], _, _ => fun o ho => by cases ho
+  | op :: ops, st, h => by
+    intro o ho
+    simp only [runOps, List.mem_cons] at ho
+    rcases ho with rfl | ho
+    · refine ⟨(stepOp_hw_l2 st h op).1, ?_⟩
+      intro rk hr
+      cases op <;> simp only [stepOp, bigStream] at hr
+      case expand k => exact ⟨k, (stepOp_hw_l2 st h (.expand k)).2 k rk rfl (by simpa only [stepOp] using hr)⟩
+      all_goals (repeat' split at hr) <;> cases hr
+    · exact runOps_hw_l2 ops _ (stepOp_keyInv st op h) o ho
+
+theorem init_keyInv (hw : Bool) : KeyInv { hw := hw } := by intro rks h; simp at h
 
 end Percival.Proofs.AesStep
